@@ -177,37 +177,59 @@ def abstraction_probs(prev: Prog, final: Prog):
 
 
 def abstraction_classes(prev: Prog, final: Prog):
-    """-> (Wd, G): Wd = variables that carry the randomness of an abstracted condition's variables unconditionally
-    (the condition's variables, what they were computed from, what is computed from them outside the abstracted
-    branch); G = variables assigned under an abstracted condition (and what is computed from those)."""
+    """-> predicate inherent(monomial variables).  For every abstracted condition C: Wd = variables that carry the randomness
+    of C's variables unconditionally (C's variables, what they were computed from, what is computed from them outside the
+    branch of C); G = variables assigned under C (and what is computed from those).  The stand-in for C is independent of
+    Wd, so the joint law of (Wd, G) is lost BY DESIGN of the abstraction (known finding): a test function is hit by that
+    loss iff it mentions both sides, or depends on an assignment OUTSIDE the branch of C that reads both sides.  An
+    assignment INSIDE the branch that reads Wd is a different matter: Polar's own rules promise to refuse it."""
     from vlib.lang import cond_symbols
     assigns = [a for a in prev.initial + prev.body if hasattr(a, "kind")]
     allv = set(prev.assigned_vars())
-    C = set()
+    reads = lambda a: (rhs_symbols(a) | cond_symbols(a.cond)) & allv
+    infos = []
     for c in final.abstr.values():
-        C |= cond_symbols(c) & allv
-    guarded = lambda a: bool(cond_symbols(a.cond) & C)
-    Wd = set(C)
-    changed = True
-    while changed:
-        changed = False
-        for a in assigns:
-            r = rhs_symbols(a) & allv
-            if a.var in Wd and not guarded(a) and not r <= Wd:
-                Wd |= r
-                changed = True
-            if not guarded(a) and (r & Wd) and a.var not in Wd:
-                Wd.add(a.var)
-                changed = True
-    G = {a.var for a in assigns if guarded(a)}
-    changed = True
-    while changed:
-        changed = False
-        for a in assigns:
-            if a.var not in G and ((rhs_symbols(a) | cond_symbols(a.cond)) & G):
-                G.add(a.var)
-                changed = True
-    return Wd, G
+        C = cond_symbols(c) & allv
+        guarded = lambda a, C=C: bool(cond_symbols(a.cond) & C)
+        Wd = set(C)
+        changed = True
+        while changed:
+            changed = False
+            for a in assigns:
+                r = rhs_symbols(a) & allv
+                if a.var in Wd and not guarded(a) and not r <= Wd:
+                    Wd |= r
+                    changed = True
+                if not guarded(a) and (r & Wd) and a.var not in Wd:
+                    Wd.add(a.var)
+                    changed = True
+        G = {a.var for a in assigns if guarded(a)}
+        changed = True
+        while changed:
+            changed = False
+            for a in assigns:
+                if a.var not in G and (reads(a) & G):
+                    G.add(a.var)
+                    changed = True
+        mixers = {a.var for a in assigns if not guarded(a) and (reads(a) & G) and (reads(a) & (Wd - G))}
+        infos.append((Wd, G, mixers))
+
+    def inherent(mvars):
+        dep = set(mvars)
+        changed = True
+        while changed:
+            changed = False
+            for a in assigns:
+                if a.var in dep and not reads(a) <= dep:
+                    dep |= reads(a)
+                    changed = True
+        for Wd, G, mixers in infos:
+            if any(v in Wd and v not in G for v in mvars) and any(v in G for v in mvars):
+                return True
+            if mixers & dep:
+                return True
+        return False
+    return inherent
 
 
 def compare_stages(A: Prog, B: Prog, tvars, D, types, stats, tag, timeout_ms=30000, want_mutant=False, param_vals=None, all_cex=False):
@@ -361,9 +383,7 @@ def job(item):
                     continue
                 key = f"{pid}|{oname}|{nb}"
                 if classes:
-                    Wd, G = classes
-                    mv = r["mq"].symbols()
-                    if any(a in Wd and a not in G for a in mv) and any(b in G for b in mv):
+                    if classes(set(r["mq"].symbols())):
                         # the stand-in is independent of the variables its condition was about: their joint law is lost
                         key = "abstraction|joint moment of a variable of the abstracted condition and a variable assigned under it"
                 what = (f"pass {nb} (after {na}, options {oname}) changes E[{r['monomial']}] of "
@@ -379,6 +399,70 @@ def job(item):
     return out
 
 
+def abstraction_family(seed, count):
+    """random programs around the Bernoulli abstraction: thresholds on continuous draws (and on affine aliases of them),
+    assignments under those conditions that read counters, other draws, aliases or the tested draw itself, else
+    branches, the same condition twice, a draw made again between two tests.  Polar may refuse any of them; what it accepts
+    must keep the joint law (the known loss of the joint law with the tested variables itself is keyed separately)."""
+    import random
+    out = []
+    for i in range(count):
+        r = random.Random(f"c02-abs-{seed}-{i}")
+        draws = {"u": r.choice(["Uniform(0, 1)", "Uniform(0, 2)", "Uniform(-1, 1)", "Normal(0, 1)", "Laplace(0, 1)", "Normal(1, 4)"])}
+        if r.random() < 0.5:
+            draws["v"] = r.choice(["Uniform(0, 1)", "Uniform(1, 3)", "Normal(0, 1)"])
+
+        def thr(d):
+            if d.startswith("Uniform"):
+                return r.choice(["1/2", "1/3", "3/4", "1", "0", "3/2"])
+            return d[d.index("(") + 1:d.index(",")]      # the location
+        body = [f"    {k} = {d}" for k, d in draws.items()]
+        alias = None
+        if r.random() < 0.4:
+            alias = "w"
+            body.append(f"    w = {r.choice(['2*u', 'u + 1', '1 - u', 'u'])}")
+        if r.random() < 0.4:
+            body.append("    f = Bernoulli(1/2)")
+            flag = True
+        else:
+            flag = False
+
+        def cond():
+            k = r.choice(list(draws))
+            c = f"{k} {r.choice(['>', '<', '>=', '<='])} {thr(draws[k])}"
+            if alias and r.random() < 0.3:
+                c = f"w {r.choice(['>', '<'])} {r.choice(['1', '1/2', '0'])}"
+            if flag and r.random() < 0.3:
+                c += " && f == 1"
+            return c
+
+        def upd():
+            return r.choice(["x = x + 1", "y = y + 2", "y = x", "x = x + y", "y = u", "x = 2*x + 1", "y = y + u" if r.random() < 0.3 else "y = y - 1",
+                             "x = w" if alias else "x = x - 1"])
+        c1 = cond()
+        body.append(f"    if {c1}:")
+        body.append("        " + upd())
+        if r.random() < 0.3:
+            body.append("    else:")
+            body.append("        " + upd())
+        body.append("    end")
+        k2 = r.random()
+        if k2 < 0.3:
+            body.append(f"    if {c1}:")
+            body.append("        " + upd())
+            body.append("    end")
+        elif k2 < 0.6:
+            if r.random() < 0.5:
+                body.append(f"    u = {draws['u']}")
+            body.append(f"    if {cond()}:")
+            body.append("        " + upd())
+            body.append("    end")
+        init = ["x = 0", "y = 1"] + (["f = 0"] if flag else [])
+        text = "\n".join(init) + "\nwhile true:\n" + "\n".join(body) + "\nend\n"
+        out.append((f"absgen/s{seed}/{i}", text))
+    return out
+
+
 def build_items(run):
     items = []
     optsets = OPTION_SETS if not run.quick else OPTION_SETS[:3]
@@ -387,6 +471,8 @@ def build_items(run):
         items.append({"id": pid, "text": text, "optsets": OPTION_SETS, "D": 3})
     for pid, text, goals in families.corpus("corpus_abs"):
         items.append({"id": "abs/" + pid, "text": text, "optsets": OPTION_SETS[:2], "D": 3})
+    for pid, text in abstraction_family(run.seed, 40 if run.quick else 400):
+        items.append({"id": pid, "text": text, "optsets": OPTION_SETS[:1], "D": 2})
     for pid, text, goals in families.repo_benchmarks(run.quick, run.seed, limit_quick=12):
         if "defective" in pid or "development" in pid:
             continue
